@@ -382,10 +382,30 @@ def parents_clean(seed, nops=12):
         last[c] = p
         if r.random() < 0.7:
             _pace(r, lines, peers)
+    causal = []
+    if r.random() < 0.5 and len(peers) >= 2:
+        # causal follow-up (no drain in between, yet not a conflict): a peer re-parents a child right
+        # after the frame in which it applied a link of that child made by another peer. The
+        # oracle demands the second parent only if the trace shows that the first link had been
+        # received by then (see protoprops._c05_oracle).
+        lines.append('DRAIN 60')
+        c = r.randint(1, k)
+        cands = [q for q in range(1, k + 1) if q != c and c not in ancestors(q) and q != parent.get(c)]
+        if len(cands) >= 2:
+            p1, p2 = r.sample(cands, 2)
+            q, P = r.sample(peers, 2)
+            lines.append('OP %d parent %d %d' % (q, c, p1))
+            lines.append('FRAME %d 2' % q)
+            if q != 0 and P != 0:
+                lines.append('FRAME 0 2')
+            lines.append('FRAME %d 1' % P)
+            lines.append('OP %d parent %d %d' % (P, c, p2))
+            parent[c] = p2
+            causal.append((str(c), str(p1), P))
     if late is not None:
         lines.append('OP %d setup' % late)
     lines.append('DRAIN 80')
-    return '\n'.join(lines) + '\n', dict(parent={str(c): str(p) for c, p in parent.items()})
+    return '\n'.join(lines) + '\n', dict(parent={str(c): str(p) for c, p in parent.items()}, causal=causal)
 
 
 def optin(seed, nops=16):
